@@ -1,6 +1,6 @@
 #!/bin/bash
 # usage: tools/run_demo.sh <ID> [<srcdir>]  -> prints demo verdict without and with the change (one shared scratch worktree)
-ID=$1; SRC=${2:-/tmp/seed_out/$ID}; WT=/tmp/vs_demo
+ID=$1; SRC=${2:-${SEEDROOT:-/tmp/seed_out}/$ID}; WT=/tmp/vs_demo
 [ -d $WT ] || git -C /repo worktree add -q $WT HEAD
 cd $WT && git checkout -q -- . && git clean -fdq -e target
 T=$(python3 -c "import json;print(json.load(open('$SRC/meta.json'))['demo_test'].split('::')[-1])")
